@@ -73,6 +73,8 @@ class Reader:
             return "broken"
         if kind == "badunits":
             return "badunits"       # '<m<s>': a units delimiter inside units
+        if kind == "badword":
+            return "badword"        # 'foo*/': a comment delimiter inside a bare word
         if kind == "badchar":
             o = ord(text)
             if self.d == "default":
